@@ -96,6 +96,17 @@ class Gen:
             return self.rng.choice(self.pool)
         return self.new_prior()
 
+    def pick_positive_prior(self):
+        stmts = {st["h"]: st for st in self.prog if st["op"] == "prior"}
+        pos = [h for h in self.pool if stmts[h]["kind"] == "LU" or (stmts[h]["kind"] == "U" and stmts[h]["args"][0] > 0.01)]
+        if pos and self.rng.random() < 0.7:
+            return self.rng.choice(pos)
+        h = self.fresh("p")
+        lo = 10 ** self.rng.uniform(-3, 1)
+        self.prog.append({"op": "prior", "h": h, "kind": "LU", "args": [lo, lo * 10 ** self.rng.uniform(0.2, 2)]})
+        self.pool.append(h)
+        return h
+
     def arith_expr(self, depth=0):
         rng = self.rng
         h = self.fresh("e")
@@ -121,6 +132,9 @@ class Gen:
             return {"h": self.arith_expr(depth + 1)}
 
         l, r = operand(), operand()
+        if bop in ("div", "floordiv", "mod") and isinstance(r, dict):
+            # the divisor must not be able to vanish (p - p, p % p ...): a strictly positive prior
+            r = {"h": self.pick_positive_prior()}
         if not isinstance(l, dict) and not isinstance(r, dict):
             l = {"h": self.pick_prior()}
         self.prog.append({"op": "arith", "h": h, "bop": bop, "l": l, "r": r})
